@@ -37,7 +37,10 @@ def core_pairs():
     change = {"t": "put", "n": "a", "b": 2, "cond": 0}
     remove = {"t": "del", "n": "a", "b": 0, "cond": 0}
     cchange = {"t": "put", "n": "a", "b": 3, "cond": 1}
-    return [(again, change), (again, remove), (change, again), (remove, again), (again, cchange), (cchange, again)]
+    new1 = {"t": "put", "n": "b", "b": 3, "cond": 0}      # two creations of one new name
+    new2 = {"t": "put", "n": "b", "b": 5, "cond": 0}
+    return [(again, change), (again, remove), (change, again), (remove, again), (again, cchange), (cchange, again),
+            (new1, new2)]
 
 
 READ = {"t": "read", "n": "", "b": 0, "cond": 0}
@@ -74,6 +77,15 @@ def _work(job):
                         for cond in (-1, 0):
                             extra.append(([("A", i), ("B", None)],
                                           {"t": "del", "n": opa["n"], "b": 0, "cond": cond}))
+                    # ... and where the first one has made its checks, the second one is inside its
+                    # critical section (file written / objects added), and the first one then runs
+                    # into the held lock and is refused: its way out must not touch anything
+                    if lockgate in ga and lockgate in (rd.count_gates(tmpl, opb)[1]):
+                        gb = rd.count_gates(tmpl, opb)[1]
+                        inside = [k + 1 for k, g in enumerate(gb) if g in ("WriteFile", "Remove", "AddObj", "MoveRef")]
+                        for j in sorted(set(inside))[:4]:
+                            extra.append(([("A", ga.index(lockgate)), ("B", j), ("A", None)],
+                                          {"t": "del", "n": opa["n"], "b": 0, "cond": 0}))
                 if job["deep"]:
                     rng = random.Random(job["seed"])
                     for _ in range(job["deep"]):
@@ -306,7 +318,7 @@ def run(prop, tier, seed, replay=None):
         if quick:
             # every pair of kinds is kept; within a kind pair a sample of the concrete arguments
             rng.shuffle(pairs)
-            pairs = core_pairs() + [p for p in pairs if p not in core_pairs()][:58]
+            pairs = core_pairs() + [p for p in pairs if p not in core_pairs()][:57]
         # a reader overlapping a writer: every write operation with a concurrent full read
         pairs += [(o, READ) for o in (ops if not quick else rng.sample(ops, 8))]
         jobs = []
